@@ -143,7 +143,9 @@ def _check_symbolic_domain(ref):
                     except OutOfDomain:
                         continue
                     d = abs(v1.as_mp() - v2.as_mp())
-                    if d > N.mpf("1e-35") * max(abs(v1.as_mp()), abs(v2.as_mp()), N.mpf("1e-300")):
+                    # (scale 1: the sample points are O(1); a result that is pure 50-digit roundoff, such as
+                    #  -a - b + b + a, must not count as a dependency)
+                    if d > N.mpf("1e-30") * max(abs(v1.as_mp()), abs(v2.as_mp()), N.mpf(1)):
                         depends = True
                         break
                 if not depends:
